@@ -60,6 +60,16 @@ def adversarial_replies(rng, version, key_for_conn):
         blk = AES.new(simdev.ENC_KEY, AES.MODE_ECB).encrypt(bytes(15) + bytes([bad_pad]))
         v2.append(("signed_bad_padding_%d" % bad_pad, signed_v2(rng, blk)))
     v2.append(("signed_good", signed_v2(rng, good_ct)))
+    # AUTHENTIC packets (properly padded, encrypted and signed) that carry a DEGENERATE frame: empty, one byte, not
+    # starting with 0xAA, a bare header, random bytes - every frame length 0..20 and a few longer ones
+    def authentic(frame):
+        pad = 16 - len(frame) % 16
+        return signed_v2(rng, AES.new(simdev.ENC_KEY, AES.MODE_ECB).encrypt(frame + bytes([pad] * pad)))
+    for n in list(range(0, 21)) + [31, 32, 33, 47, 48]:
+        v2.append(("authentic_zero_frame_%d" % n, authentic(bytes(n))))
+        v2.append(("authentic_random_frame_%d" % n, authentic(rb(rng, n))))
+        v2.append(("authentic_aa_prefix_frame_%d" % n, authentic((b"\xaa" + rb(rng, n))[:n])))
+    v2.append(("authentic_state_truncated", authentic(STATE[:rng.randrange(1, len(STATE))])))
     for lf in (0, 5, 6, 39, 40, 55, 56, 57, 0xFFFF):
         v2.append(("length_field_%d" % lf, signed_v2(rng, good_ct, length_field=lf)))
     for total in range(22, 60):
